@@ -47,3 +47,4 @@ ss server_expired   $EXP_FROM $EXP_TO "subjectAltName=DNS:test.com"
 ss server_notyet    $NY_FROM  $NY_TO  "subjectAltName=DNS:test.com"
 rm -f ca2/*.srl
 python3 mint_tworoles.py   # two role extensions (DER-level edit, see the script)
+./mint_more.sh   # CN-only / SAN-vs-CN / intermediate CA material
